@@ -37,6 +37,12 @@ type TimerThread = timeout_list::TimerThread<TimerData>;
 
 static mut SCHED: *const Scheduler = std::ptr::null();
 
+// how many coroutines a worker runs from its local queue before it looks at its global
+// queue again. a coroutine that keeps yielding keeps the local queue non-empty, if the
+// global queue was only collected when the local one runs empty, the coroutines that
+// were sent to this worker by `schedule_global` (every spawn) would never run
+const GLOBAL_POLL_INTERVAL: usize = 61;
+
 #[cold]
 fn init_scheduler() {
     let workers = config().get_workers();
@@ -131,8 +137,14 @@ impl Scheduler {
     #[cfg(not(feature = "work_steal"))]
     pub fn run_queued_tasks(&self, id: usize) {
         let local = unsafe { self.local_queues.get_unchecked(id) };
+        let mut ticks: usize = 0;
         while let Some(co) = local.pop() {
             run_coroutine(co);
+            // see the comment of `GLOBAL_POLL_INTERVAL`
+            ticks = ticks.wrapping_add(1);
+            if ticks % GLOBAL_POLL_INTERVAL == 0 {
+                self.collect_global(id);
+            }
         }
     }
 
@@ -146,10 +158,17 @@ impl Scheduler {
         #[cfg(feature = "rand_work_steal")]
         let mut rng = fastrand::Rng::new();
 
+        let mut ticks: usize = 0;
+
         'work: loop {
             match local.pop() {
                 Some(co) => {
                     run_coroutine(co);
+                    // see the comment of `GLOBAL_POLL_INTERVAL`
+                    ticks = ticks.wrapping_add(1);
+                    if ticks % GLOBAL_POLL_INTERVAL == 0 {
+                        self.collect_global(id);
+                    }
                     continue 'work;
                 }
                 None => {
